@@ -56,7 +56,7 @@ import Proofs.C02
 import Proofs.Lemmas.WalkTop
 import Proofs.Lemmas.WalkValid3
 import Proofs.Lemmas.WalkYield
-import Proofs.Lemmas.WalkAbbrev
+import Proofs.Lemmas.WalkNames
 import Proofs.Lemmas.GramXPath
 import Proofs.Lemmas.ParseGram
 import Proofs.Lemmas.ParseRender
@@ -967,6 +967,35 @@ theorem dslash_in_the_forest (r F : PT) (k : PTs) (w : WCtx) (hr : r.isNt = true
       walk Expect.handlers (N "PathExpr" [N "PathExprFilterWithAbbreviatedPath" [F, tkp .dslash, r']]) w =
       walk Expect.handlers (pathNode (.filt F) (graft dosStep r')) w) :=
   ⟨abbrev_dslash_relative r k w hr hfr, fun _ h => abbrev_dslash_filter F h w hF hfF⟩
+
+open Xsel.Walk in
+/-- **reserved_names_in_the_forest** — a name that SPELLS A KEYWORD (`child`, `text`, `self`, …) is a keyword
+    token of the generated lexer, derived through the `…ReservedNameConflict…` productions and evaluated by six
+    handlers of their own, which read the name with `GetStringExtents`.  Each of these nodes is evaluated exactly
+    as the ordinary name-test node with the keyword's spelling as name: the property's "names that spell an axis,
+    node type or operator", at the level of the forest.  With `forest_walk_refines_eval` and
+    `abbreviations_in_the_forest` every entry of the handler table is covered by a theorem. -/
+theorem reserved_names_in_the_forest (k k2 : Kw) (p l : Chars) (w : WCtx) :
+    walk Expect.handlers (N "NodeTest" [N "NameTestQNameLocalOnlyReservedNameConflict" [rncNode k]]) w =
+      walk Expect.handlers (testNode (.name k.chars)) w ∧
+    walk Expect.handlers (N "NodeTest" [N "NameTestQNameNamespaceWithLocalReservedNameConflictLocal" [.tk (.ncname p), tkp .colon, rncNode k]]) w =
+      walk Expect.handlers (testNode (.qname p k.chars)) w ∧
+    walk Expect.handlers (N "NodeTest" [N "NameTestQNameNamespaceWithLocalReservedNameConflictNamespace" [rncNode k, tkp .colon, .tk (.ncname l)]]) w =
+      walk Expect.handlers (testNode (.qname k.chars l)) w ∧
+    walk Expect.handlers (N "NodeTest" [N "NameTestQNameNamespaceWithLocalReservedNameConflictBoth" [rncNode k, tkp .colon, rncNode k2]]) w =
+      walk Expect.handlers (testNode (.qname k.chars k2.chars)) w ∧
+    walk Expect.handlers (N "NodeTest" [N "NameTestNamespaceAnyLocalReservedNameConflict" [rncNode k, tkp .colon, tkp .star]]) w =
+      walk Expect.handlers (testNode (.nsAny k.chars)) w ∧
+    walk Expect.handlers (N "NodeTest" [N "NameTestLocalAnyNamespaceReservedNameConflict" [tkp .star, tkp .colon, rncNode k]]) w =
+      walk Expect.handlers (testNode (.localAny k.chars)) w :=
+  ⟨rnc_name k w, rnc_qname_local p k w, rnc_qname_ns k l w, rnc_qname_both k k2 w, rnc_nsAny k w, rnc_localAny k w⟩
+
+open Xsel.Walk in
+/-- `t[p]…` (no axis specifier, with predicates) is `child::t[p]…`, for any predicate list `D` -/
+theorem abbreviated_child_step_with_predicates (t : NodeTest) (D : PT) (w : WCtx) (hD : D.isNt = true) :
+    walk Expect.handlers (N "Step" [N "NodeTestAndPredicate" [testNode t, D]]) w =
+    walk Expect.handlers (N "Step" [N "StepWithAxisAndNodeTestAndPredicate" [N "StepWithAxisAndNodeTest" [axisNode .child, testNode t], D]]) w :=
+  abbrev_child_preds t D w hD
 
 /-- the hypothesis of the forest theorems holds for the sample tree (non-vacuity) -/
 example : Xsel.Walk.walkOk sampleTree = true := by decide +kernel
